@@ -542,11 +542,11 @@ class Layout:
             if self.rng.random() < 0.2:
                 s = s + self.sp()
             if self.rng.random() < 0.15:
-                s = s + self.osp() + "# " + self.rng.choice(["comment", "end loop", "1 2 3", "(", "é汉"])
+                s = s + self.osp() + "# " + self.rng.choice(["comment", "end loop", "1 2 3", "(", "é汉", "wrapped \\", "\\", "a \\ b \\"])
         self.lines.append(s)
         if self.fancy and self.rng.random() < 0.15:
             for _ in range(self.rng.randrange(1, 3)):
-                self.lines.append(self.rng.choice(["", "   ", "# only a comment", "\t#x"]))
+                self.lines.append(self.rng.choice(["", "   ", "# only a comment", "\t#x", "# ends in a backslash \\", "#\\"]))
 
     def row_text(self, ents):
         texts = [self.entry(e) for e in ents]
